@@ -573,6 +573,7 @@ class C07(Check):
                 d["prior"] = priors[pi]
                 d["vshape"] = pi   # the caller's in-membership container also arrives in 5 different shapes
                 d["lprior"] = pi % 4   # and the label container empty, partly right, too long, stale
+                d["ushape"] = pi % 4   # and the out-membership container (N*K elements) as N x K, K x N, N*K x 1, 1 x N*K
                 lines.append(RunCase(**d).line("h%d.p%d" % (k, pi)))
                 if rng.random() < 0.5:  # an unrelated call in between
                     lines.append(random_run(rng, variants=ALL_VARIANTS).line("h%d.x%d" % (k, pi)))
@@ -632,7 +633,7 @@ class C07(Check):
         generator_reuse_stage(self, "generator-object-state")
         order_independence_stage(self, "call-order-dependent")
         self.sample({"history": [l.split(" ")[0] for l in lines[:12]], "priors": [str(p) for p in priors]})
-        self.cov["rule"] = ("histories in one process: the same call under 5 different prior contents of the output containers (0, 5, -5, NaN, 1e300) and 5 prior shapes of the unvalidated in-membership container (N x K, K x N, NK x 1, empty, (N+1) x K), "
+        self.cov["rule"] = ("histories in one process: the same call under 5 different prior contents of the output containers (0, 5, -5, NaN, 1e300) and 5 prior shapes of the unvalidated in-membership container (N x K, K x N, NK x 1, empty, (N+1) x K), 4 shapes of the out-membership container (N*K elements), 4 prior contents of the label vector, "
                             "in shuffled order, interleaved with unrelated calls of other variants, then repeated, then in a fresh process; one Solver object run on two problems vs a fresh one; "
                             "implementation-vs-implementation bit identity; non-trivial = some vertex has no out-edge and r >= 2; "
                             "distinct by (variant, records, seed)")
